@@ -99,8 +99,15 @@ func C09(run *report.Run) {
 						op := &spec.Op{Method: "POST", ID: "combo", Responses: []*spec.Response{{Status: "default", Desc: "d"}},
 							Params: []*spec.Param{{Name: "q", In: "query", Schema: spec.TF(qt[0], qt[1])}, {Name: "qa", In: "query", Required: true, Schema: spec.Arr(spec.TF(qt[0], qt[1]))},
 								{Name: "X-H", In: "header", Required: true, Schema: spec.TF(ht[0], ht[1])}, {Name: "X-Opt", In: "header", Schema: spec.T("string")}}}
-						pis := &spec.PathItem{Template: "/c/{seg}/x/{seg2}", Ops: []*spec.Op{op},
-							Params: []*spec.Param{{Name: "seg", In: "path", Required: true, Schema: spec.TF(ptp[0], ptp[1])}, {Name: "seg2", In: "path", Required: true, Schema: spec.T("string")}}}
+						// every second combination has a static segment whose byte and rune lengths differ (the independent
+						// validator cannot route those, so the others keep its verdict)
+						tmpl := "/c/{seg}/x/{seg2}"
+						if (qi+pi)%2 == 1 || bn == "array" {
+							tmpl = "/c/{seg}/xü/{seg2}"
+						}
+						pis := &spec.PathItem{Template: tmpl, Ops: []*spec.Op{op},
+							// declared in the reverse of the template order, behind a static segment whose byte and rune lengths differ
+							Params: []*spec.Param{{Name: "seg2", In: "path", Required: true, Schema: spec.T("string")}, {Name: "seg", In: "path", Required: true, Schema: spec.TF(ptp[0], ptp[1])}}}
 						s.Paths = []*spec.PathItem{pis}
 						body := ""
 						if sc := bodies[bn]; sc != nil {
@@ -113,7 +120,7 @@ func C09(run *report.Run) {
 							}
 						}
 						id := fmt.Sprintf("combo[q=%s/%s,h=%s/%s,p=%s/%s,body=%s,base=%s]", qt[0], qt[1], ht[0], ht[1], ptp[0], ptp[1], bn, bf)
-						pl := &drv.C09Payload{Method: "POST", Template: "/c/{seg}/x/{seg2}", Base: base.Want, Body: body, Params: []drv.ParamDecl{
+						pl := &drv.C09Payload{Method: "POST", Template: tmpl, Base: base.Want, Body: body, Params: []drv.ParamDecl{
 							{Name: "q", In: "query", Type: qt[0], Format: qt[1]}, {Name: "qa", In: "query", Required: true, Array: true, Type: qt[0], Format: qt[1]},
 							{Name: "X-H", In: "header", Required: true, Type: ht[0], Format: ht[1]}, {Name: "X-Opt", In: "header", Type: "string"},
 							{Name: "seg", In: "path", Required: true, Type: ptp[0], Format: ptp[1]}, {Name: "seg2", In: "path", Required: true, Type: "string"}}}
